@@ -177,7 +177,10 @@ def check(case, ctx):
             E = [reach[case["pick"][0] % len(reach)]]
         elif mode == "subset" and reach:
             E = sorted({reach[p % len(reach)] for p in case["pick"][: 1 + case["pick"][3] % 3]})
-        if E and any(not (o == n or n in refsim.ancestors(c, [o])) for o in E):
+        if E and mode == "subset" and outs and case["pick"][2] % 3 == 0:
+            # also select outputs that n cannot reach (they never change); n must reach at least one
+            E = sorted(set(E) | {outs[p_ % len(outs)] for p_ in case["pick"][1:3]})
+        if E and not any(o == n or n in refsim.ancestors(c, [o]) for o in E):
             E = None
         if E:
             pk = case.get("pick", [0, 0, 0, 0])
